@@ -418,6 +418,7 @@ class World:
         self.on_iteration: Optional[Callable[['World'], None]] = None
         self.stop_when: Optional[Callable[['World'], bool]] = None
         self.tcp_waited = 0.0
+        self.at_quiescence: List[Callable[['World'], None]] = []
         self.more_expected: Optional[Callable[[], bool]] = None     # tcp only: is the oracle still waiting for bytes?
 
     # -- sockets
@@ -523,6 +524,13 @@ class World:
             else:
                 self.quiet = 0
             self.last_activity_seen = self.activity
+            if self.quiet >= self.settle and self.at_quiescence:
+                # scripted epilogue: run the next step (e.g. "client closes now") and wait for quiescence again
+                fn = self.at_quiescence.pop(0)
+                fn(self)
+                self.quiet = 0
+                self.activity += 1
+                raise queue.Empty()
             if self.quiet >= self.settle:
                 if self.tcp and self.tcp_waited < 1.0 and (self.more_expected is None or self.more_expected()):
                     # loopback TCP is not synchronous (delayed ACKs, window updates): before calling it
